@@ -350,6 +350,7 @@ func C19(c *Ctx) {
 		"state":  "{\npackage p\n}\nS <- #{ c.state[\"n\"] = 0; return nil } A* !.\nA <- [a-c] #{ return nil } / \"(\" S \")\"\n",
 		"lr":     "{\npackage p\n}\nS <- E !.\nE <- E \"+\" T / T\nT <- T \"*\" [0-9]+ / [0-9]+\n",
 		"uclass": "{\npackage p\n}\nS <- [\\p{Lu}\\p{Greek}]+ [^\\p{Nd}] / [a-z]i\n",
+		"recover": "{\npackage p\n}\nS <- Num (\",\" Num)* !.\nNum <- n:[0-9]+ //{errNum} FixNum\nFixNum <- Skip { return nil, nil }\nSkip <- [a-z]+ / \"(\" FixNum \")\"\n",
 	}
 	type seq struct {
 		flags []string
@@ -363,6 +364,9 @@ func C19(c *Ctx) {
 		{[]string{"-support-left-recursion", "-optimize-parser"}, []string{"state", "lr", "plain", "uclass"}},
 		{[]string{"-optimize-grammar", "-optimize-basic-latin"}, []string{"uclass", "plain", "state"}},
 		{nil, []string{"plain", "state", "uclass"}},
+		{nil, []string{"recover", "plain", "recover"}},
+		{[]string{"-support-left-recursion"}, []string{"recover", "lr", "plain", "recover"}},
+		{[]string{"-support-left-recursion"}, []string{"lr", "recover", "lr"}},
 	}
 	for _, sq := range seqs {
 		var texts [][]byte
@@ -431,6 +435,18 @@ func c19Strata() []*gast.Grammar {
 		// one mutually left-recursive group with two directly left-recursive rules (no rule lies on all cycles)
 		mk(r("Start", gast.S(gast.Ref("Expr"), gast.NotE(gast.Dot()))), r("Expr", gast.C(gast.S(gast.Ref("Expr"), gast.L("+"), gast.Ref("Term")), gast.Ref("Term"))),
 			r("Term", gast.C(gast.S(gast.Ref("Term"), gast.L("*"), gast.Ref("Call")), gast.Ref("Call"))), r("Call", gast.C(gast.S(gast.Ref("Expr"), gast.L("("), gast.L(")")), gast.Plus(gast.Cl(gast.Chars("01")))))),
+		// a left-recursive rule on two cycles whose rule names concatenate to the same string
+		// ({x, ab, c} and {x, a, bc}); x is the only possible leader
+		mk(r("start", gast.S(gast.Lab("v", gast.Ref("x")), gast.NotE(gast.Dot()))), r("x", gast.C(gast.S(gast.Ref("ab"), gast.L("p")), gast.S(gast.Ref("a"), gast.L("q")), gast.L("x"))),
+			r("ab", gast.S(gast.Ref("c"), gast.L("r"))), r("c", gast.S(gast.Ref("x"), gast.L("s"))), r("a", gast.S(gast.Ref("bc"), gast.L("t"))), r("bc", gast.S(gast.Ref("x"), gast.L("u")))),
+		// a recovery operator over a bare terminal whose recovery rule starts, through rules, with a
+		// terminal; genuine left recursion elsewhere
+		mk(r("S", gast.S(gast.Ref("Expr"), gast.L(";"), gast.Ref("Num"))), r("Expr", gast.C(gast.S(gast.Ref("Expr"), gast.L("+"), gast.Ref("Num")), gast.Ref("Num"))),
+			r("Num", gast.Rec(gast.Lab("n", gast.Plus(gast.Cl(gast.Chars("01")))), gast.Ref("FixNum"), "L1")), r("FixNum", gast.A(gast.Ref("Skip"), 1, mon.Spec{})),
+			r("Skip", gast.C(gast.Plus(gast.Cl(gast.Chars("ab"))), gast.S(gast.L("("), gast.Ref("FixNum"), gast.L(")"))))),
+		mk(r("S", gast.S(gast.Ref("Num"), gast.Star(gast.S(gast.L(","), gast.Ref("Num"))))),
+			r("Num", gast.Rec(gast.Lab("n", gast.Plus(gast.Cl(gast.Chars("01")))), gast.Ref("FixNum"), "L1")), r("FixNum", gast.A(gast.Ref("Skip"), 1, mon.Spec{})),
+			r("Skip", gast.C(gast.Plus(gast.Cl(gast.Chars("ab"))), gast.S(gast.L("("), gast.Ref("FixNum"), gast.L(")"))))),
 		// nullable computation depends on the visit order of mutually recursive rules
 		mk(r("Q", gast.C(gast.S(gast.Ref("R"), gast.L("q")), gast.L(""))), r("R", gast.S(gast.Ref("Q"), gast.Ref("T"), gast.L("r"))), r("T", gast.C(gast.S(gast.Ref("R"), gast.L("y")), gast.L("t")))),
 		mk(r("A", gast.C(gast.S(gast.Ref("B"), gast.L("a")), gast.L(""))), r("B", gast.C(gast.S(gast.Ref("C"), gast.Opt(gast.L("b"))), gast.Ref("A"))), r("C", gast.C(gast.S(gast.Ref("A"), gast.Ref("B"), gast.L("c")), gast.L("x"))), r("D", gast.S(gast.Ref("A"), gast.Ref("C")))),
